@@ -304,6 +304,11 @@ class MExpander(Expander):
                 # not symmetric in normal form the result is the inverse of ANOTHER matrix - a distinct atom, equal to nothing else
                 return M.atom(f"inv_assumed_symmetric({X})", 2).matmul(B)
             return M.atom(f"inv({X})", 2).matmul(B)
+        if short in ("concatenate", "hstack") and len(node.args) == 1 and isinstance(node.args[0], (ast.List, ast.Tuple)) and not node.keywords:
+            # the pieces laid end to end, kept apart (which slice of the result each piece fills is the caller's question)
+            tv = TupleV([self.eval(x, env) for x in node.args[0].elts])
+            tv.concat = True
+            return tv
         if short in ("array", "asarray", "copy", "squeeze"):
             v = self.eval(node.args[0], env)
             if short == "array" and isinstance(v, ListV) and len(v.items) == 1 and isinstance(v.items[0], M) \
